@@ -323,6 +323,31 @@ Proof.
 Qed.
 Print Assumptions C03_history_records_closed_interval.
 
+(* the channel history of a ROLE survives soft delete + re-creation, in the default collection and in a named one
+   (auth.NewRole / NewRoleNoChannels carry over every collection's history since 3cadf88; before, a named collection
+   lost it -- recreate_keeps_named_history = false): DeleteRole records [since, delete sequence] as the last entry of
+   every channel the role had, and UpdatePrincipal re-creating the role keeps the whole history -- so a user who still
+   holds the role is told about the channels the re-created role no longer grants *)
+Theorem C03_role_history_survives_delete_and_recreate : forall def ops r rr s1 s2 chans c dflt,
+  xwf (xinit def) ops = true ->
+  let xs := xrun (xinit def) ops in
+  roles (xb (x_rebuild_role xs r)) r = Some rr -> r_del rr = false ->
+  let g := xr (x_rebuild_role xs r) r in
+  let xs1 := fst (xstep xs (XDelRole r false s1)) in
+  let xs2 := fst (xstep xs1 (XSetRole r chans s2)) in
+  (In c (keys (g_c g)) -> last (entries (g_hist (xr xs2 r)) c) dflt = (since (g_c g) c, s1)) /\
+  (~ In c (keys (g_c g)) -> entries (g_hist (xr xs2 r)) c = entries (g_hist g) c) /\
+  g_hist (xr xs2 r) = g_hist (xr xs1 r).
+Proof.
+  intros def ops r rr s1 s2 chans c dflt _ xs Er Ed g xs1 xs2. subst xs1 xs2. cbn [xstep fst].
+  assert (Edel : exists rr1, roles (xb (x_del_role xs r false s1)) r = Some rr1 /\ r_del rr1 = true).
+  { unfold x_del_role, x_mark_deleted. rewrite Er, Ed. cbn [xb set_roles roles]. rewrite upd_same. eexists. split; reflexivity. }
+  destruct Edel as [rr1 [E1 E2]].
+  rewrite (recreated_role_keeps_history _ r rr1 chans s2 E1 E2).
+  destruct (deleted_role_records_intervals xs r rr s1 c dflt Er Ed) as [A [B _]]. split; [exact A|]. split; [exact B | reflexivity].
+Qed.
+Print Assumptions C03_role_history_survives_delete_and_recreate.
+
 (* since values move FORWARD across a revocation: if after ops1 channel c has no live grant source for key p (it is
    revoked), then after ANY continuation ops2 every grant source of c for p -- hence the since value a load computes
    from them -- is newer than every sequence used up to the revocation, in particular newer than the EndSeq of every
